@@ -496,13 +496,16 @@ def write_cfg(ctx, name, text):
     return name
 
 
-def path_gen_cfg(ctx, maxtok, sim):
-    return write_cfg(ctx, 'SvgPathGen_run_%s.cfg' % ('sim' if sim else 'bfs'), '\n'.join([
+def path_gen_cfg(ctx, maxtok, sim, big=False):
+    """sim with the small coordinate set: long walks in which coincidences (control point = reflection of the
+    previous one, = an end point, zero-length lines) are frequent, i.e. the C->S, Q->T, curve->line rewrites
+    fire; sim with the big set: numbers of many magnitudes and spellings"""
+    return write_cfg(ctx, 'SvgPathGen_run_%s.cfg' % (('simbig' if big else 'sim') if sim else 'bfs'), '\n'.join([
         'SPECIFICATION Spec',
         'CONSTANTS MaxTok = %d' % maxtok,
-        'Coords <- %s' % ('CoordsSim' if sim else 'CoordsSmall'),
-        'Radii <- %s' % ('RadiiSim' if sim else 'RadiiSmall'),
-        'Rots <- %s' % ('RotsSim' if sim else 'RotsSmall'),
+        'Coords <- %s' % ('CoordsSim' if big else 'CoordsSmall'),
+        'Radii <- %s' % ('RadiiSim' if big else 'RadiiSmall'),
+        'Rots <- %s' % ('RotsSim' if big else 'RotsSmall'),
         'ExclZ = %s' % ('TRUE' if excluded('z-draw') else 'FALSE'),
         'ExclDeg = %s' % ('TRUE' if excluded('deg-smooth') else 'FALSE'),
         'ExclZeroL = %s' % ('TRUE' if excluded('zeroL-smooth') else 'FALSE'),
@@ -539,6 +542,7 @@ def generate(ctx):
     t0 = vlib.time.time()
     cfg_pb = path_gen_cfg(ctx, 7 if q else 8, False)
     cfg_ps = path_gen_cfg(ctx, 120, True)
+    cfg_pl = path_gen_cfg(ctx, 120, True, big=True)
     cfg_db = doc_gen_cfg(ctx, 'bfs', 7 if q else 8, 3 if q else 4)
     cfg_ds = doc_gen_cfg(ctx, 'sim', 40, 5)
     vlib._speccopy(ctx)
@@ -548,13 +552,15 @@ def generate(ctx):
                               workers=w, heap='4g', timeout=3000),
         laws2=lambda: (vlib.tlc(ctx, 'SvgPathLaws', 'SvgPathLaws_wide.cfg', workers=w, heap='4g', timeout=3000) if not q else None),
         pb=lambda: vlib.tlc(ctx, 'SvgPathGen', cfg_pb, workers=w, heap='6g', timeout=3000),
-        ps=lambda: vlib.tlc(ctx, 'SvgPathGen', cfg_ps, workers=1, simulate='num=%d' % (60 if q else 600), depth=125,
+        ps=lambda: vlib.tlc(ctx, 'SvgPathGen', cfg_ps, workers=1, simulate='num=%d' % (120 if q else 1500), depth=125,
+                            seed=ctx.seed, timeout=1800),
+        pl=lambda: vlib.tlc(ctx, 'SvgPathGen', cfg_pl, workers=1, simulate='num=%d' % (30 if q else 400), depth=125,
                             seed=ctx.seed, timeout=1800),
         db=lambda: vlib.tlc(ctx, 'SvgDocGen', cfg_db, workers=min(4, w), heap='4g', timeout=3000),
         ds=lambda: vlib.tlc(ctx, 'SvgDocGen', cfg_ds, workers=1, simulate='num=%d' % (400 if q else 4000), depth=45,
                             seed=ctx.seed, timeout=1800),
     )
-    with ThreadPoolExecutor(max_workers=6) as ex:
+    with ThreadPoolExecutor(max_workers=7) as ex:
         fut = {}
         for k, f in jobs.items():
             fut[k] = ex.submit(f)
@@ -567,7 +573,7 @@ def generate(ctx):
         if r['invariant_violations'] or r['errors'] or not r['completed']:
             raise vlib.Infra('design-level model checking (%s) did not pass:\n%s' % (k, r['out'][-3000:]))
         ctx.add_mc(r)
-    for k in ('ps', 'ds'):
+    for k in ('ps', 'pl', 'ds'):
         r = res[k]
         if r['errors'] or r['invariant_violations']:
             raise vlib.Infra('simulation (%s) failed: %s' % (k, r['out'][-1500:]))
@@ -576,6 +582,9 @@ def generate(ctx):
     ctx.coverage['path_generator_states'] = res['pb']['distinct']
     ctx.coverage['paths_enumerated'] = len(pex)
     psim = uniq([accepting_prefix(t) for t in tlc_json_lines(res['ps']['out'])])
+    plarge = uniq([accepting_prefix(t) for t in tlc_json_lines(res['pl']['out'])])
+    # one walk is printed once per successor candidate of its last step: keep one per 100-token prefix
+    psim = list({json.dumps(t[:100]): t for t in psim}.values()) + list({json.dumps(t[:100]): t for t in plarge}.values())
     ctx.coverage['paths_simulated'] = len(psim)
     dex = tlc_json_lines(res['db']['out'])
     ctx.coverage['doc_generator_states'] = res['db']['distinct']
@@ -732,7 +741,10 @@ def confirm(ctx, exe, cases, lines, why):
     again is reported.  A rejected path of a multi-path document is first tried on its own; if it only
     fails after the other paths of its document, the witness is the document prefix."""
     redo = []
-    for i in sorted(why):
+    # the shortest rejected inputs make the best witnesses; at most 40 lines are re-run and reported
+    order = sorted(why, key=lambda i: (len(lines[i]), i))[:40]
+    ctx.coverage['rejections_rerun'] = len(order)
+    for i in order:
         e = json.loads(lines[i])
         c = cases[e['id']]
         if e['kind'] == 'path':
@@ -750,7 +762,7 @@ def confirm(ctx, exe, cases, lines, why):
     reported = 0
     for j in sorted(why2):
         reproduced.add(redo[json.loads(rl[j])['id']]['what'][1])
-    lost = sorted(set(why) - reproduced)
+    lost = sorted(set(order) - reproduced)
     if lost:
         raise vlib.Infra('%d rejected lines were not rejected again when re-run alone, e.g. %s' % (
             len(lost), line_text(json.loads(lines[lost[0]]))[:600]))
